@@ -785,10 +785,21 @@ def record_failures(ctx, suite, pred, ok, describe, kf=None, arglines=None):
     evaluated on the same argument lines"""
     bad = [i for i, b in enumerate(ok) if not b]
     if bad and kf and arglines:
+        # the classifier also sees the inputs of the failing case (program, constructor string, arguments)
+        def with_prog(i):
+            try:
+                d = describe(i)
+            except Exception:  # noqa: B902
+                return arglines[i]
+            inp = [d[k] for k in ("program", "programs", "input", "request", "base", "ref", "operation", "host", "text", "text2") if k in d]
+            try:
+                return arglines[i] + " " + enc(["__prog__", inp])
+            except Exception:  # noqa: B902
+                return arglines[i]
         for fid, cls in kf:
             if not bad:
                 break
-            cres = eval_pred(ctx, cls, [arglines[i] for i in bad])
+            cres = eval_pred(ctx, cls, [with_prog(i) for i in bad])
             still = []
             for i, r in zip(bad, cres):
                 if r:
